@@ -566,10 +566,12 @@ func unkReachesMessageSet(md protoreflect.MessageDescriptor) bool {
 	return msgReachesMessageSet(md, map[protoreflect.FullName]bool{})
 }
 
-// unkF9Class: every unknown field retained by holder is a MessageSet item (field 1, start group)
-// of a MessageSet message: the input class of known finding F9.
+// unkF9Class: holder is a MessageSet message and every unknown field it retained is the
+// normalised form of a MessageSet item (field number = type id, wire type LEN) whose type id has
+// no registered extension: the input class of known finding F9.
 func unkF9Class(holder protoreflect.Message) bool {
-	if !messageset.IsMessageSet(holder.Descriptor()) {
+	md := holder.Descriptor()
+	if !messageset.IsMessageSet(md) {
 		return false
 	}
 	chunks, ok := unkSplit(holder.GetUnknown())
@@ -577,7 +579,10 @@ func unkF9Class(holder protoreflect.Message) bool {
 		return false
 	}
 	for _, ch := range chunks {
-		if ch.num != messageset.FieldItem || ch.typ != protowire.StartGroupType {
+		if ch.typ != protowire.BytesType {
+			return false
+		}
+		if _, err := protoregistry.GlobalTypes.FindExtensionByNumber(md.FullName(), ch.num); err == nil {
 			return false
 		}
 	}
